@@ -10,6 +10,7 @@ import (
 	"strings"
 
 	"golang.org/x/tools/go/ssa"
+	"golang.org/x/tools/go/ssa/ssautil"
 
 	"manticheck/internal/lanes"
 	"manticheck/internal/lin"
@@ -50,15 +51,18 @@ type c11 struct {
 	connFs map[int]bool    // indices of the connection field(s)
 	sessK  *big.Int        // value of netbios.SESSION_MESSAGE
 	sessNm string
+
+	sentinels map[*ssa.Global]bool
+	allFns    []*ssa.Function
 }
 
 func runC11(c *Ctx) {
 	p, r := c.P, c.R
 	r.Explanation = "C11 NBT session framing, decided statically on go/ssa of (*NBTTransport).Send and (*NBTTransport).Receive; no Manticore code is executed. " +
-		"R1-lanes (exact bit provenance, E2 domain: constants, zero/sign-extending conversions, truncations, <<k, >>k, &, |, ^, &^, carry-free +, *2^k, /2^k, %2^k, byte element stores, composite literals, append chains, binary.{Big,Little}Endian.PutUintN/UintN/AppendUintN, one level of in-module helpers; anything else is ⊤ ⇒ Undecided): " +
+		"R1-lanes (exact bit provenance, E2 domain: constants, zero/sign-extending conversions, truncations, <<k, >>k, &, |, ^, &^, carry-free +, *2^k, /2^k, %2^k, byte element stores, composite literals, append chains, binary.{Big,Little}Endian.PutUintN/UintN/AppendUintN, in-module helpers taking or returning slices, or [N]byte arrays by value; anything else is ⊤ ⇒ Undecided): " +
 		"in Send the bytes that reach conn.Write are frame[0]=SESSION_MESSAGE, frame[1]=0000000·len(data)[16], frame[2]=len(data)[15..8], frame[3]=len(data)[7..0]; in Receive the size of the payload buffer has bit 16 = header[1].0, bits 15..8 = header[2], bits 7..0 = header[3] and every other bit 0. " +
-		"R2-refusal (E1 prover): at the first conn.Write the dominating guards entail len(data) <= 2^k-1, k = number of low bits of len(data) the header carries (so narrowing is lossless; with R1, k=17 and the bound is 0x1FFFF), and every return of Send that is not preceded by a Write carries a non-nil error. " +
-		"R3-io: every use of the connection in Receive is io.ReadFull/io.ReadAtLeast(…, len(buf)); each read's error is tested; the header read fills exactly 4 bytes; the payload read is dominated by the header read's success edge and fills make([]byte, length) with exactly the decoded length; every return with a possibly-nil error returns that very buffer and is dominated by the success edge of all reads (or propagates the last read's own error). In Send every use of the connection is a Write and the Write arguments, concatenated, are exactly 4 header bytes followed by the caller's data — in ONE Write call, or each further Write is dominated by the success edge of the previous one. " +
+		"R2-refusal (E1 prover): at the first conn.Write the dominating guards entail len(data) <= 2^k-1, k = number of low bits of len(data) the header carries (so narrowing is lossless; with R1, k=17 and the bound is 0x1FFFF), and every return of Send that is not preceded by a Write carries a certainly non-nil error (errors.New / fmt.Errorf / a boxed concrete value / a sentinel: a module-level error variable assigned exactly once, in its package initialiser, from such a value / an in-module constructor all of whose returns are such values). " +
+		"R3-io: every use of the connection in Receive is io.ReadFull/io.ReadAtLeast(…, len(buf)), directly or through an in-module wrapper that performs exactly one such read — into its buffer parameter, or into a make([]byte, n) it allocates for its size parameter and returns — and reports a nil error exactly when that read succeeded; each read's error is tested; the header read fills exactly 4 bytes; the payload read is dominated by the header read's success edge and fills make([]byte, length) with exactly the decoded length; every return with a possibly-nil error returns that very buffer and is dominated by the success edge of all reads (or propagates the last read's own error). In Send every use of the connection is a Write and the Write arguments, concatenated, are exactly 4 header bytes followed by the caller's data — in ONE Write call, or each further Write is dominated by the success edge of the previous one. " +
 		"R4-type: frame[0] is the constant netbios.SESSION_MESSAGE; in Receive the payload allocation is dominated by the header[0]==SESSION_MESSAGE edge. " +
 		"NOT decided: behaviour under arbitrary TCP segmentation and under a connection cut mid-frame is IMPLIED by R3 through the io.ReadFull contract (trusted, see assumptions) and is not explored; concurrent Send calls on one transport; what the peer does with a frame; Connect/Close; whether net.Conn.Write itself is atomic; the count returned by Send."
 	r.Assumptions = []string{
@@ -69,7 +73,7 @@ func runC11(c *Ctx) {
 		"SPEC table (RFC 1002 §4.3.1, DESIGN Appendix B): TYPE at 0 (1 byte), FLAGS at 1 (bit 0 = length bit 16, bits 7..1 zero), LENGTH at 2 (2 bytes, big-endian); SESSION_MESSAGE is the constant declared in network/netbios/session.go (its numeric value is not compared with the RFC)",
 		"the E1 prover of internal/prove (dominating branch conditions, Fourier–Motzkin) is sound",
 	}
-	x := &c11{Ctx: c, connFs: map[int]bool{}}
+	x := &c11{Ctx: c, connFs: map[int]bool{}, sentinels: map[*ssa.Global]bool{}}
 
 	// ---- anchors -------------------------------------------------------
 	send := p.Func(c11PkgNBT, "NBTTransport", "Send")
@@ -173,12 +177,208 @@ type c11Use struct {
 	kind string // write | readfull | readatleast | read | other
 	buf  ssa.Value
 	desc string
+	// alloc: the read is made by a helper that allocates the buffer itself,
+	// make([]byte, size), fills it completely and returns it as result 0
+	alloc bool
+	size  ssa.Value
 }
 
 // connUses enumerates every use of the transport's connection in fn.
-func (x *c11) connUses(fn *ssa.Function) []c11Use {
+func (x *c11) connUses(fn *ssa.Function) []c11Use { return x.connUsesIn(fn, false, 0) }
+
+// readWrapper: h is an in-module helper that performs exactly one full read
+// (io.ReadFull, or io.ReadAtLeast(r, buf, len(buf))) of the connection — the
+// transport's field, or an io.Reader-like parameter — into one of its []byte
+// parameters, and whose error result is nil exactly when that read succeeded:
+// every return propagates the read's own error, or reports a certain error
+// under the read's failure edge / before the read, or returns nil under its
+// success edge. Returns the index of the buffer parameter.
+func (x *c11) readWrapper(h *ssa.Function, depth int) (int, bool) {
+	if h == nil || h.Blocks == nil || !x.P.InModule(h) || depth > 1 {
+		return 0, false
+	}
+	res := h.Signature.Results()
+	if res.Len() < 1 || res.Len() > 2 || types.TypeString(res.At(res.Len()-1).Type(), nil) != "error" {
+		return 0, false
+	}
+	uses := x.connUsesIn(h, true, depth+1)
+	if len(uses) != 1 || uses[0].call == nil {
+		return 0, false
+	}
+	u := uses[0]
+	switch u.kind {
+	case "readfull":
+	case "readatleast":
+		okMin := false
+		if args := u.call.Common().Args; len(args) == 3 {
+			if c, ok := args[2].(*ssa.Call); ok {
+				if b, isB := c.Common().Value.(*ssa.Builtin); isB && b.Name() == "len" && c.Common().Args[0] == u.buf {
+					okMin = true
+				}
+			}
+		}
+		if !okMin {
+			return 0, false
+		}
+	default:
+		return 0, false
+	}
+	bufIdx := -1
+	for i, q := range h.Params {
+		if ssa.Value(q) == u.buf {
+			bufIdx = i
+		}
+	}
+	if bufIdx < 0 {
+		return 0, false
+	}
+	if res.Len() == 2 && prove.IsByteSeq(res.At(0).Type()) {
+		return 0, false // result 0 is a buffer: that is the allocating form
+	}
+	succ, fail, errV := c11ErrEdges(u.call)
+	for _, b := range h.Blocks {
+		ret, ok := b.Instrs[len(b.Instrs)-1].(*ssa.Return)
+		if !ok {
+			continue
+		}
+		ev := ret.Results[len(ret.Results)-1]
+		k, isNil := ev.(*ssa.Const)
+		isNil = isNil && k.Value == nil
+		switch {
+		case errV != nil && ev == errV && lanes.Dominates(u.call, ret):
+		case !lanes.Dominates(u.call, ret) && x.errCtor(ev):
+		case c11Under(fail, b) && x.errCtor(ev):
+		case c11Under(succ, b) && isNil:
+		default:
+			return 0, false
+		}
+	}
+	return bufIdx, true
+}
+
+// allocReader: h is an in-module helper func(…, n int, …) ([]byte, error) that
+// allocates make([]byte, n), fills it with exactly one full read of the
+// connection, and returns that buffer with a nil error exactly when the read
+// succeeded (any other return carries a certain error or the read's own).
+// Returns the index of the size parameter.
+func (x *c11) allocReader(h *ssa.Function, depth int) (int, bool) {
+	if h == nil || h.Blocks == nil || !x.P.InModule(h) || depth > 1 {
+		return 0, false
+	}
+	res := h.Signature.Results()
+	if res.Len() != 2 || !prove.IsByteSeq(res.At(0).Type()) || types.TypeString(res.At(1).Type(), nil) != "error" {
+		return 0, false
+	}
+	uses := x.connUsesIn(h, true, depth+1)
+	if len(uses) != 1 || uses[0].call == nil || uses[0].kind != "readfull" || uses[0].alloc {
+		return 0, false
+	}
+	u := uses[0]
+	mk, ok := c11FullView(u.buf).(*ssa.MakeSlice)
+	if !ok || (mk.Cap != nil && mk.Cap != mk.Len) {
+		return 0, false
+	}
+	sizeIdx := -1
+	sz := mk.Len
+	for {
+		cv, isCv := sz.(*ssa.Convert)
+		if !isCv {
+			break
+		}
+		sz = cv.X
+	}
+	for i, q := range h.Params {
+		if ssa.Value(q) == sz {
+			if bt, ok := q.Type().Underlying().(*types.Basic); ok && bt.Kind() == types.Int {
+				sizeIdx = i
+			}
+		}
+	}
+	if sizeIdx < 0 {
+		return 0, false
+	}
+	// the buffer must not be written by anything but the read
+	for _, r := range *mk.Referrers() {
+		switch y := r.(type) {
+		case *ssa.Return, *ssa.DebugRef:
+		case ssa.CallInstruction:
+			if y != u.call {
+				if b, isB := y.Common().Value.(*ssa.Builtin); !isB || b.Name() != "len" {
+					return 0, false
+				}
+			}
+		case *ssa.Slice:
+			if c11FullView(y) != ssa.Value(mk) {
+				return 0, false
+			}
+		default:
+			return 0, false
+		}
+	}
+	succ, fail, errV := c11ErrEdges(u.call)
+	nsucc := 0
+	for _, b := range h.Blocks {
+		ret, ok := b.Instrs[len(b.Instrs)-1].(*ssa.Return)
+		if !ok {
+			continue
+		}
+		ev := ret.Results[1]
+		k, isNil := ev.(*ssa.Const)
+		isNil = isNil && k.Value == nil
+		switch {
+		case c11Under(succ, b) && isNil && c11FullView(ret.Results[0]) == ssa.Value(mk):
+			nsucc++
+		case errV != nil && ev == errV && lanes.Dominates(u.call, ret) && c11Under(fail, b):
+		case !lanes.Dominates(u.call, ret) && x.errCtor(ev):
+		case c11Under(fail, b) && x.errCtor(ev):
+		default:
+			return 0, false
+		}
+	}
+	return sizeIdx, nsucc > 0
+}
+
+// c11FullView strips full re-slices buf[:] / buf[0:len(buf)].
+func c11FullView(v ssa.Value) ssa.Value {
+	for d := 0; d < 4; d++ {
+		sl, ok := v.(*ssa.Slice)
+		if !ok || sl.Max != nil {
+			return v
+		}
+		if sl.Low != nil {
+			if k, isK := sl.Low.(*ssa.Const); !isK || k.Value == nil || k.Value.ExactString() != "0" {
+				return v
+			}
+		}
+		if sl.High != nil {
+			c, ok := sl.High.(*ssa.Call)
+			if !ok {
+				return v
+			}
+			b, isB := c.Common().Value.(*ssa.Builtin)
+			if !isB || b.Name() != "len" || c.Common().Args[0] != sl.X {
+				return v
+			}
+		}
+		v = sl.X
+	}
+	return v
+}
+
+func (x *c11) connUsesIn(fn *ssa.Function, wrapper bool, depth int) []c11Use {
 	derived := map[ssa.Value]bool{}
 	var work []ssa.Value
+	if wrapper {
+		// an io.Reader-like parameter stands for the connection
+		for _, q := range fn.Params {
+			if it, ok := q.Type().Underlying().(*types.Interface); ok && it != nil {
+				if ms := types.NewMethodSet(q.Type()); ms.Lookup(nil, "Read") != nil {
+					derived[q] = true
+					work = append(work, q)
+				}
+			}
+		}
+	}
 	for _, b := range fn.Blocks {
 		for _, in := range b.Instrs {
 			fa, ok := in.(*ssa.FieldAddr)
@@ -269,6 +469,16 @@ func (x *c11) connUses(fn *ssa.Function) []c11Use {
 						continue
 					}
 				}
+				if fnc := cc.StaticCallee(); fnc != nil && !cc.IsInvoke() {
+					if bi, ok := x.readWrapper(fnc, depth); ok && bi < len(cc.Args) {
+						uses = append(uses, c11Use{call: y, kind: "readfull", buf: cc.Args[bi], desc: "through " + fnc.Name()})
+						continue
+					}
+					if si, ok := x.allocReader(fnc, depth); ok && si < len(cc.Args) {
+						uses = append(uses, c11Use{call: y, kind: "readfull", alloc: true, size: cc.Args[si], buf: c11Result0(y), desc: "through " + fnc.Name()})
+						continue
+					}
+				}
 				name := "a dynamic callee"
 				if fnc := cc.StaticCallee(); fnc != nil {
 					name = fnc.String()
@@ -276,6 +486,31 @@ func (x *c11) connUses(fn *ssa.Function) []c11Use {
 				uses = append(uses, c11Use{call: y, kind: "other", desc: "connection passed to " + name})
 			default:
 				uses = append(uses, c11Use{kind: "other", desc: fmt.Sprintf("connection value used by %T", rr)})
+			}
+		}
+	}
+	// methods of the transport called on the receiver: a read wrapper uses the
+	// connection on this function's behalf
+	if len(fn.Params) > 0 && fn.Signature.Recv() != nil {
+		recv := fn.Params[0]
+		if nt, ok := c11Deref(recv.Type()).(*types.Named); ok && nt.Obj() == x.tname && recv.Referrers() != nil {
+			for _, rr := range *recv.Referrers() {
+				ci, ok := rr.(ssa.CallInstruction)
+				if !ok || seen[rr] {
+					continue
+				}
+				cc := ci.Common()
+				fnc := cc.StaticCallee()
+				if fnc == nil || cc.IsInvoke() || len(cc.Args) == 0 || cc.Args[0] != ssa.Value(recv) || fnc == fn {
+					continue
+				}
+				if bi, ok := x.readWrapper(fnc, depth); ok && bi < len(cc.Args) {
+					seen[rr] = true
+					uses = append(uses, c11Use{call: ci, kind: "readfull", buf: cc.Args[bi], desc: "through " + fnc.Name()})
+				} else if si, ok := x.allocReader(fnc, depth); ok && si < len(cc.Args) {
+					seen[rr] = true
+					uses = append(uses, c11Use{call: ci, kind: "readfull", alloc: true, size: cc.Args[si], buf: c11Result0(ci), desc: "through " + fnc.Name()})
+				}
 			}
 		}
 	}
@@ -290,6 +525,20 @@ func (x *c11) connUses(fn *ssa.Function) []c11Use {
 		return pi < pj
 	})
 	return uses
+}
+
+// c11Result0: the extracted result 0 of a call (nil when it is never extracted).
+func c11Result0(call ssa.CallInstruction) ssa.Value {
+	v := call.Value()
+	if v == nil || v.Referrers() == nil {
+		return nil
+	}
+	for _, r := range *v.Referrers() {
+		if ex, ok := r.(*ssa.Extract); ok && ex.Index == 0 {
+			return ex
+		}
+	}
+	return nil
 }
 
 func c11Deref(t types.Type) types.Type {
@@ -307,19 +556,28 @@ func c11ErrEdges(call ssa.CallInstruction) (succ, fail []*ssa.BasicBlock, errVal
 	if v == nil || v.Referrers() == nil {
 		return
 	}
-	for _, r := range *v.Referrers() {
-		ex, ok := r.(*ssa.Extract)
-		if !ok || ex.Index != 1 {
+	var cands []ssa.Value
+	if tup, isTuple := v.Type().(*types.Tuple); isTuple {
+		for _, r := range *v.Referrers() {
+			if ex, ok := r.(*ssa.Extract); ok && ex.Index == tup.Len()-1 && types.TypeString(ex.Type(), nil) == "error" {
+				cands = append(cands, ex)
+			}
+		}
+	} else if types.TypeString(v.Type(), nil) == "error" {
+		cands = append(cands, v)
+	}
+	for _, ex := range cands {
+		errVal = ex
+		if ex.Referrers() == nil {
 			continue
 		}
-		errVal = ex
 		for _, rr := range *ex.Referrers() {
 			bo, ok := rr.(*ssa.BinOp)
 			if !ok || (bo.Op != token.NEQ && bo.Op != token.EQL) {
 				continue
 			}
 			other := bo.Y
-			if bo.Y == ssa.Value(ex) {
+			if bo.Y == ex {
 				other = bo.X
 			}
 			if k, isK := other.(*ssa.Const); !isK || k.Value != nil {
@@ -359,19 +617,117 @@ func c11Under(blocks []*ssa.BasicBlock, at *ssa.BasicBlock) bool {
 	return false
 }
 
-func c11ErrCtor(v ssa.Value) bool {
+// errCtor: v is certainly a non-nil error: a concrete value boxed into the
+// interface, errors.New / fmt.Errorf, a sentinel — a package-level error
+// variable of the module that is assigned exactly once, in its package
+// initialiser, from such a value —, or the result of an in-module function all
+// of whose returns are such values.
+func (x *c11) errCtor(v ssa.Value) bool { return x.errCtorD(v, 0) }
+
+func (x *c11) errCtorD(v ssa.Value, d int) bool {
+	if d > 3 {
+		return false
+	}
 	switch y := v.(type) {
 	case *ssa.MakeInterface:
 		return true
+	case *ssa.ChangeInterface:
+		return x.errCtorD(y.X, d+1)
+	case *ssa.UnOp:
+		if g, ok := y.X.(*ssa.Global); ok && y.Op == token.MUL {
+			return x.sentinel(g, d)
+		}
+	case *ssa.Phi:
+		for _, e := range y.Edges {
+			if !x.errCtorD(e, d+1) {
+				return false
+			}
+		}
+		return len(y.Edges) > 0
 	case *ssa.Call:
-		if fn := y.Common().StaticCallee(); fn != nil && fn.Pkg != nil {
+		fn := y.Common().StaticCallee()
+		if fn == nil {
+			return false
+		}
+		if fn.Pkg != nil {
 			switch fn.Pkg.Pkg.Path() + "." + fn.Name() {
 			case "fmt.Errorf", "errors.New":
 				return true
 			}
 		}
+		if x.P.InModule(fn) && fn.Blocks != nil && fn.Signature.Results().Len() == 1 {
+			n := 0
+			for _, b := range fn.Blocks {
+				ret, ok := b.Instrs[len(b.Instrs)-1].(*ssa.Return)
+				if !ok {
+					continue
+				}
+				n++
+				if !x.errCtorD(ret.Results[0], d+1) {
+					return false
+				}
+			}
+			return n > 0
+		}
 	}
 	return false
+}
+
+// sentinel: g is a module-level variable with exactly one store in the whole
+// module, located in a package initialiser, of a certainly-non-nil error.
+func (x *c11) sentinel(g *ssa.Global, d int) bool {
+	if r, ok := x.sentinels[g]; ok {
+		return r
+	}
+	x.sentinels[g] = false
+	if g.Pkg == nil || !strings.HasPrefix(g.Pkg.Pkg.Path(), x.P.ModPath) {
+		return false
+	}
+	if x.allFns == nil {
+		for fn := range ssautil.AllFunctions(x.P.SSA) {
+			if fn.Blocks != nil && (x.P.InModule(fn) || (fn.Pkg != nil && strings.HasPrefix(fn.Pkg.Pkg.Path(), x.P.ModPath))) {
+				x.allFns = append(x.allFns, fn)
+			}
+		}
+	}
+	var stores []*ssa.Store
+	escaped := false
+	for _, fn := range x.allFns {
+		for _, b := range fn.Blocks {
+			for _, in := range b.Instrs {
+				for _, op := range in.Operands(nil) {
+					if *op != ssa.Value(g) {
+						continue
+					}
+					switch y := in.(type) {
+					case *ssa.Store:
+						if y.Addr == ssa.Value(g) {
+							stores = append(stores, y)
+						} else {
+							escaped = true
+						}
+					case *ssa.UnOp:
+						if y.Op != token.MUL {
+							escaped = true
+						}
+					case *ssa.DebugRef:
+					default:
+						escaped = true // address taken
+					}
+				}
+			}
+		}
+	}
+	if escaped || len(stores) != 1 {
+		return false
+	}
+	st := stores[0]
+	if fn := st.Parent(); fn.Name() != "init" || fn.Synthetic == "" || fn.Pkg != g.Pkg {
+		return false
+	}
+	ok := x.errCtorD(st.Val, d+1)
+	x.sentinels[g] = ok
+	return ok
 }
 
 func (x *c11) bitName(hdr string) func(lanes.Bit) string {
@@ -664,14 +1020,14 @@ func (x *c11) send(fn *ssa.Function) {
 			continue
 		}
 		nret++
-		if !c11ErrCtor(ret.Results[len(ret.Results)-1]) {
+		if !x.errCtor(ret.Results[len(ret.Results)-1]) {
 			bad++
 		}
 	}
 	if bad > 0 {
 		r.Fail(c11R2, cb, pos, fmt.Sprintf("%d of %d returns that are not dominated by a Write may return a nil error: the payload is dropped silently instead of refused", bad, nret))
 	} else {
-		r.OK(c11R2, cb, pos, fmt.Sprintf("%d early return(s), all with fmt.Errorf/errors.New/concrete error values", nret))
+		r.OK(c11R2, cb, pos, fmt.Sprintf("%d early return(s), all with fmt.Errorf/errors.New/concrete error values/sentinel errors", nret))
 	}
 }
 
@@ -719,8 +1075,20 @@ func (x *c11) receive(fn *ssa.Function) {
 		}
 		return lanes.Unknown, 0
 	}
+	an.AllocCall = func(call ssa.CallInstruction) (ssa.Value, int, bool) {
+		if i, ok := isRead[call]; ok && reads[i].alloc {
+			return reads[i].size, i, true
+		}
+		return nil, 0, false
+	}
 	root := an.Root(fn)
 	name := x.bitName("header")
+	for i := range reads {
+		if reads[i].alloc && reads[i].buf == nil {
+			r.Undecided(c11R3, fmt.Sprintf("%s: %s read: the buffer returned by the reading helper is used", fname, role[i]), p.Rel(reads[i].call.Pos()), "the buffer returned by the allocating read helper is discarded")
+			return
+		}
+	}
 
 	var succ, fail [2][]*ssa.BasicBlock
 	var errV [2]ssa.Value
@@ -785,10 +1153,18 @@ func (x *c11) receive(fn *ssa.Function) {
 
 	// payload buffer = make([]byte, length)
 	cm := fname + ": payload read fills make([]byte, length), length = the decoded header length"
-	var mk *ssa.MakeSlice
-	{
-		v := root.Origin(reads[1].buf)
-		mk, _ = v.(*ssa.MakeSlice)
+	// the payload buffer and its size: make([]byte, length) in Receive itself, or
+	// the buffer an allocating read helper returns for the size it is given
+	type payload struct {
+		buf  ssa.Value
+		size ssa.Value
+		at   ssa.Instruction // where it is allocated (the make, or the helper call)
+	}
+	var mk *payload
+	if reads[1].alloc {
+		mk = &payload{buf: reads[1].buf, size: reads[1].size, at: reads[1].call}
+	} else if m, ok := root.Origin(reads[1].buf).(*ssa.MakeSlice); ok {
+		mk = &payload{buf: m, size: m.Len, at: m}
 	}
 	cl16 := fname + ": payload length bit 16 <- header[1] bit 0"
 	clHi := fname + ": payload length bits 15..8 <- header[2]"
@@ -803,7 +1179,7 @@ func (x *c11) receive(fn *ssa.Function) {
 		}
 		r.Undecided(c11R4, ct, ppos, why)
 	} else {
-		mpos := p.Rel(mk.Pos())
+		mpos := p.Rel(mk.at.Pos())
 		if !okH {
 			why := "header buffer not tracked"
 			for _, k := range []string{cl16, clHi, clLo, clZ} {
@@ -812,7 +1188,7 @@ func (x *c11) receive(fn *ssa.Function) {
 			r.Undecided(c11R3, cm, mpos, why)
 			r.Undecided(c11R4, ct, mpos, why)
 		} else {
-			L := root.Lanes(mk.Len)
+			L := root.Lanes(mk.size)
 			if len(L) != 64 {
 				L = L.Resize(64, false)
 			}
@@ -838,11 +1214,11 @@ func (x *c11) receive(fn *ssa.Function) {
 			if pure {
 				r.OK(c11R3, cm, mpos, "make size "+L.String(name)+" is built from header bits only (no arithmetic adjustment); the same slice is passed to the read")
 			} else {
-				r.Undecided(c11R3, cm, mpos, "the make size is not exactly the decoded length: "+an.Expr(mk.Len)+" has lanes "+L.String(name)+"; "+strings.Join(an.Why, "; "))
+				r.Undecided(c11R3, cm, mpos, "the make size is not exactly the decoded length: "+an.Expr(mk.size)+" has lanes "+L.String(name)+"; "+strings.Join(an.Why, "; "))
 			}
 
 			// R4: type check dominates the allocation
-			if x.typeChecked(root, mk.Block(), hreg) {
+			if x.typeChecked(root, mk.at.Block(), hreg) {
 				r.OK(c11R4, ct, mpos, "make is dominated by the header[0] == "+x.sessNm+" edge")
 			} else {
 				r.Fail(c11R4, ct, mpos, "the payload is allocated and read without a dominating test header[0] == "+x.sessNm+": keep-alive/response frames would be returned as session messages")
@@ -858,7 +1234,7 @@ func (x *c11) receive(fn *ssa.Function) {
 			continue
 		}
 		ev := ret.Results[1]
-		if c11ErrCtor(ev) {
+		if x.errCtor(ev) {
 			continue
 		}
 		definitelyErr := false
@@ -887,7 +1263,7 @@ func (x *c11) receive(fn *ssa.Function) {
 		switch {
 		case len(missing) > 0:
 			r.Fail(c11R3, cr, rpos, fmt.Sprintf("the return is not dominated by the success edge of the %s read: a message is returned with a nil error although the stream may have ended inside the frame", strings.Join(missing, " and ")))
-		case mk != nil && val == ssa.Value(mk):
+		case mk != nil && val == mk.buf:
 			r.OK(c11R3, cr, rpos, "returns the make([]byte, length) buffer under the success edges of both reads")
 		default:
 			r.Undecided(c11R3, cr, rpos, "the returned slice is not the buffer passed to the payload read: "+an.Expr(ret.Results[0]))
